@@ -31,7 +31,7 @@
 (***************************************************************************)
 EXTENDS Integers, Sequences, FiniteSets, TLC, SequencesExt, Functions, Json
 
-CONSTANTS Cs,       \* numbers of conditions for Dataset blocks (subset of 2..4)
+CONSTANTS Cs,       \* numbers of conditions for Dataset blocks (subset of 1..4; 1 = all rows one label)
           MaxRep,   \* largest number of repetitions of one condition
           MaxN,     \* largest number of observations of one block
           Ps,       \* numbers of channels
@@ -77,8 +77,10 @@ Balanced(b) == \A g, h \in Conds(b) : GSize(b, g) = GSize(b, h)
 NatDof(b) == NObs(b) - NCond(b)
 WellFormed(b, P) == /\ NObs(b) >= 2 /\ Len(b.x) = NObs(b)
                     /\ \A o \in 1..NObs(b) : Len(b.x[o]) = P
-                    /\ NatDof(b) >= 1
                     /\ MeansIntegral(b, P)
+\* the natural dof must be positive when no dof is passed; with a passed dof one repetition per
+\* condition (N = C, all residuals zero) is admissible
+DofAdmissible(b, opt) == opt = 0 => NatDof(b) >= 1
 
 (* ---------------- the definition, per block ----------------------------- *)
 ResidOf(b, P) == [o \in 1..NObs(b) |-> [c \in 1..P |->
@@ -119,7 +121,6 @@ RowPerms(n) == IF n <= 4 THEN Permutations(1..n)
 K(form) == IF IsList(form) THEN KList ELSE 1
 CsOf(form) == IF IsData(form) THEN Cs ELSE {1}
 LabelsOK(l, C) == /\ \A g \in 1..C : Cardinality({o \in DOMAIN l : l[o] = g}) \in 1..(IF C = 1 THEN MaxN ELSE MaxRep)
-                  /\ Len(l) - C >= 1
 Scaled(l, raw, P) == [lab |-> l, x |-> [o \in 1..Len(l) |-> [c \in 1..P |-> GroupLcm(l) * raw[o][c]]]]
 \* every label vector onto 1..C = every design (balanced or not) in every row order
 LabelSets(form) == UNION {{l \in [1..N -> 1..C] : Range(l) = 1..C /\ LabelsOK(l, C)} :
@@ -136,6 +137,7 @@ InitEx ==
     /\ (opt = 2 => IsList(form))
     /\ \E bs \in [1..K(form) -> BlocksEx(form, P)], dv \in DofVecs(opt, K(form)) :
          /\ (form = 3 => \A i, j \in 1..K(form) : NObs(bs[i]) = NObs(bs[j]))
+         /\ \A k \in 1..K(form) : DofAdmissible(bs[k], opt)
          /\ inp = [form |-> form, P |-> P, dofopt |-> opt, dofv |-> dv, blocks |-> bs,
                    bal |-> 0, draw |-> <<>>]
     /\ pc = "init" /\ Blank
@@ -159,7 +161,8 @@ InitRnd ==
     /\ pc = "draw" /\ Blank
 
 DrawCounts(d, form, bal, n3) ==
-  IF IsData(form) THEN [g \in 1..d.C |-> IF bal = 1 THEN d.r ELSE d.cnts[g]]
+  IF IsData(form) THEN (IF d.C = 1 THEN <<d.n>>    \* single-condition Dataset: any number of rows
+                        ELSE [g \in 1..d.C |-> IF bal = 1 THEN d.r ELSE d.cnts[g]])
   ELSE <<IF form = 3 THEN n3 ELSE d.n>>
 LabFromCounts(cnt, keys) ==
   LET C == Len(cnt)
@@ -172,7 +175,8 @@ Build ==
   /\ pc = "draw"
   /\ LET KK == Len(inp.draw)
          cnt == [k \in 1..KK |-> DrawCounts(inp.draw[k], inp.form, inp.bal, inp.draw[1].n)]
-     IN /\ \A k \in 1..KK : Sum(cnt[k]) <= MaxN /\ Sum(cnt[k]) - Len(cnt[k]) >= 1
+     IN /\ \A k \in 1..KK : /\ Sum(cnt[k]) <= MaxN /\ Sum(cnt[k]) >= 2
+                              /\ (inp.dofopt = 0 => Sum(cnt[k]) - Len(cnt[k]) >= 1)
         /\ inp' = [inp EXCEPT !.draw = <<>>,
                      !.dofv = IF inp.dofopt = 1 THEN [k \in 1..KK |-> inp.dofv[1]] ELSE inp.dofv,
                      !.blocks = [k \in 1..KK |->
@@ -182,7 +186,7 @@ Build ==
 (* ---------------- staged actions (the stages of the code path) ---------- *)
 NB == Len(inp.blocks)
 Resid == /\ pc = "init"
-         /\ \A k \in 1..NB : WellFormed(inp.blocks[k], inp.P)
+         /\ \A k \in 1..NB : WellFormed(inp.blocks[k], inp.P) /\ DofAdmissible(inp.blocks[k], inp.dofopt)
          /\ res' = [k \in 1..NB |-> ResidOf(inp.blocks[k], inp.P)]
          /\ pc' = "resid" /\ UNCHANGED <<inp, xp, dof, full>>
 CrossProd == /\ pc = "resid"
